@@ -6,6 +6,54 @@ use super::value::V;
 /// the first digit, found by search over the precision - no shortest-digits
 /// algorithm is shared with the implementation.
 pub fn shortest_digits(v: &V) -> Option<(String, i32)> {
+    // For each precision the correctly rounded decimal and its two neighbours
+    // in the last digit are tried: next to a power of two the shortest decimal
+    // that reads back is not always the correctly rounded one.
+    let reads_back = |cand: &str| -> bool {
+        match v {
+            V::Sng(x) => cand.parse::<f32>().ok() == Some(x.abs()),
+            V::Dbl(x) => cand.parse::<f64>().ok() == Some(x.abs()),
+            _ => false,
+        }
+    };
+    let (ax, maxp) = match v {
+        V::Sng(x) if x.is_finite() && *x != 0.0 => (x.abs() as f64, 9usize),
+        V::Dbl(x) if x.is_finite() && *x != 0.0 => (x.abs(), 17usize),
+        _ => return None,
+    };
+    for p in 0..=maxp {
+        let s = match v {
+            V::Sng(x) => format!("{:.*e}", p, x.abs()),
+            _ => format!("{:.*e}", p, ax),
+        };
+        let (mant, exp) = s.split_once('e')?;
+        let exp: i32 = exp.parse().ok()?;
+        let digits: String = mant.chars().filter(|c| c.is_ascii_digit()).collect();
+        let m: u128 = digits.parse().ok()?;
+        for delta in [0i128, 1, -1] {
+            let c = m as i128 + delta;
+            if c <= 0 {
+                continue;
+            }
+            let cs = c.to_string();
+            if cs.len() != digits.len() {
+                continue;
+            }
+            let cand = if cs.len() > 1 { format!("{}.{}e{}", &cs[..1], &cs[1..], exp) } else { format!("{}e{}", cs, exp) };
+            if reads_back(&cand) {
+                let mut d = cs.clone();
+                while d.len() > 1 && d.ends_with('0') {
+                    d.pop();
+                }
+                return Some((d, exp));
+            }
+        }
+    }
+    None
+}
+
+#[allow(dead_code)]
+fn shortest_digits_rounded_only(v: &V) -> Option<(String, i32)> {
     let (text, ok): (Option<String>, bool) = match v {
         V::Sng(x) => {
             if !x.is_finite() || *x == 0.0 {
